@@ -237,6 +237,77 @@ func runC13(e *Engine, r *Report, tier string) {
 				pos = e.InstrPos(off)
 			}
 			r.Check(off == nil, "R1", k+" delete(0x"+hx+")", pos, "deleted on every success path", "unbond can succeed without deleting family 0x"+hx+" (a dangling record/index; the oracle could be paid twice or its addresses stay reserved)")
+			// each entry is deleted under the key it was written under: the record's own external / bridger / oracle address
+			want := map[string]string{"12": "OracleAddress", "13": "ExternalAddress", "14": "BridgerAddress"}[hx]
+			allCalls(unbond.fn, func(c ssa.CallInstruction) {
+				if !e.callDirectOp(c, cc, hx, "delete") {
+					return
+				}
+				okKey, seenArg := false, false
+				for _, a := range c.Common().Args {
+					if isCtxType(a.Type()) || strings.HasSuffix(a.Type().String(), "Keeper") || strings.HasSuffix(a.Type().String(), "MsgServer") {
+						continue
+					}
+					seenArg = true
+					res := e.Slice(a, SliceOpts{MaxDepth: 8}, func(x ssa.Value) Verdict {
+						if n, t, ok := fieldName(x); ok && strings.HasSuffix(t.String(), "types.Oracle") {
+							if n == want {
+								return Accept
+							}
+							return Reject
+						}
+						// an accessor of the record (oracle.GetBridger()): decided by what it returns
+						if cl, ok := x.(*ssa.Call); ok {
+							if f := cl.Call.StaticCallee(); f != nil && f.Blocks != nil && f.Signature.Recv() != nil && strings.HasSuffix(strings.TrimPrefix(f.Signature.Recv().Type().String(), "*"), "types.Oracle") {
+								okAll, n := true, 0
+								for _, b := range f.Blocks {
+									ret, isR := b.Instrs[len(b.Instrs)-1].(*ssa.Return)
+									if !isR || len(ret.Results) == 0 {
+										continue
+									}
+									n++
+									rr := e.Slice(ret.Results[0], SliceOpts{MaxDepth: 6}, func(y ssa.Value) Verdict {
+										if fn2, t2, ok := fieldName(y); ok && strings.HasSuffix(t2.String(), "types.Oracle") {
+											if fn2 == want {
+												return Accept
+											}
+											return Reject
+										}
+										return Continue
+									})
+									if !(rr.AnyAccepted() && rr.AllAccepted()) {
+										okAll = false
+									}
+								}
+								if okAll && n > 0 {
+									return Accept
+								}
+								return Reject
+							}
+						}
+						return Continue
+					})
+					if res.AnyAccepted() && res.AllAccepted() {
+						okKey = true
+					}
+					if hx == "12" && !okKey {
+						// the key the record was read with
+						allCalls(unbond.fn, func(g ssa.CallInstruction) {
+							if e.callDirectOp(g, cc, "12", "get") && Dominates(g, c) {
+								for _, ga := range g.Common().Args {
+									if !isCtxType(ga.Type()) && SameExpr(ga, a, 6) {
+										okKey = true
+									}
+								}
+							}
+						})
+					}
+				}
+				if !seenArg {
+					return
+				}
+				r.Check(okKey, "R1", k+" delete(0x"+hx+") key", e.InstrPos(c), "deleted under the record's "+want, "the entry of family 0x"+hx+" is deleted under a key that is not the record's "+want+": the real entry stays behind (a retired bridger / external address keeps resolving to the oracle when it bonds again) and nothing is deleted under the key used")
+			})
 		}
 	}
 	// --- R1 no other writer of 13/14
